@@ -62,6 +62,9 @@ func runIRChecks(c *Ctx, wf, domExact bool, maxBlocks int) {
 				continue
 			}
 			for _, fn := range fns {
+				if strings.HasPrefix(fn.Name(), "GGF") {
+					continue // the fuel-counting twins of the GGP shapes are for C01
+				}
 				if len(fn.Blocks) > maxBlocks {
 					skippedBig++
 					continue
